@@ -54,6 +54,17 @@ Case vf_generate() {
   for (int i = 0; i < n; i++) {
     Op o;
     int k = vf::pickn(20);
+    if (vf::chance(18)) {
+      // a complete learn: map, deliver the watch, a controller event, deliver the request, deliver the binding,
+      // then a few events of that controller (with random deliveries in between handled by the other ops)
+      Op m; m.kind = 0; m.addr = vf::pickn(c.naddr); m.coarse = vf::chance(65);
+      Op d1; d1.kind = 4; Op d2; d2.kind = 5;
+      Op cc; cc.kind = 1; cc.id = vf::pickn(c.nids) + 10; cc.val = vf::pick<int>(0, 127);
+      c.ops.push_back(m); c.ops.push_back(d1); if (vf::coin()) c.ops.push_back(d1); c.ops.push_back(cc); c.ops.push_back(d2); c.ops.push_back(d1);
+      int more = vf::pick<int>(1, 4);
+      for (int j = 0; j < more; j++) { Op e = cc; e.val = vf::pick<int>(0, 127); c.ops.push_back(e); }
+      continue;
+    }
     o.addr = vf::pickn(c.naddr);
     o.coarse = vf::chance(70);
     o.id = vf::pickn(c.nids) + 10;
@@ -95,6 +106,8 @@ std::string vf_run(const Case &c, vf::Ctx &ctx) {
   };
   // RT-side model
   View view;
+  int watch = 0;               // learn requests announced to the realtime side and not yet used
+  std::deque<int> pend;        // controllers the realtime side has asked about; one entry is retired per delivered binding
   std::map<int, int> val7;   // per controller id: last 7-bit value seen by the RT side under the current view lineage
   int last_cc_id = -1, last_cc_val = -1; double last_out = 0; int last_addr = -1;
   size_t served = 0, cc_bound = 0, cc_unbound = 0, fine14 = 0;
@@ -135,6 +148,8 @@ std::string vf_run(const Case &c, vf::Ctx &ctx) {
         rtosc::RtData d;
         d.obj = &rt;
         rtosc::MidiMapperRT::ports.dispatch(b.data() + strlen("/midi-learn/"), d);
+        if (!e.bind) watch++;
+        if (e.bind && !pend.empty()) pend.pop_front();
         if (e.bind) {
           std::map<int, int> nv;
           for (auto &kv : e.view) if (view.count(kv.first) && val7.count(kv.first)) nv[kv.first] = val7[kv.first];
@@ -173,6 +188,16 @@ std::string vf_run(const Case &c, vf::Ctx &ctx) {
           cc_unbound++;
           if (!backend.empty() && !dup_id) return "controller " + std::to_string(o.id) + " is not assigned (in the realtime side's current mapping) but produced a parameter message" + W;
           if (r2n.size() > r2n_before + 1) return "one controller event produced more than one midi-use-CC request" + W;
+          // a not yet assigned controller is reported once (while a learn request is open), and not again while that
+          // report is still unanswered
+          bool asked = false;
+          for (int p : pend) if (p == o.id) asked = true;
+          bool expect_req = !asked && watch > 0 && pend.size() < 32;
+          bool got_req = r2n.size() == r2n_before + 1;
+          if (got_req && r2n.back() != o.id) return "midi-use-CC names controller " + std::to_string(r2n.back()) + " for an event of controller " + std::to_string(o.id) + W;
+          if (expect_req && !got_req) return "unassigned controller " + std::to_string(o.id) + " arrived while a learn request is open but no midi-use-CC was sent" + W;
+          if (!expect_req && got_req) return std::string("controller ") + std::to_string(o.id) + (asked ? " was already reported and not yet answered" : " arrived with no learn request open") + ", yet midi-use-CC was sent again" + W;
+          if (got_req) { watch--; pend.push_back(o.id); }
         } else {
           cc_bound++;
           if (dup_id) break;
